@@ -62,6 +62,19 @@ Qed.
 Lemma check_negs_length negs e runs : length (check_negs negs e runs) = length runs.
 Proof. unfold check_negs. apply map_length. Qed.
 
+(* start_capture touches the Kleene capture only *)
+Lemma start_capture_fields lim ns r e r' : start_capture lim ns r e = Some r' ->
+  r_cur r' = r_cur r /\ r_stack r' = r_stack r /\ r_cap r' = r_cap r /\ r_inval r' = r_inval r /\ r_started r' = r_started r.
+Proof.
+  unfold start_capture. intros H.
+  destruct (s_type ns); try (inversion H; subst; repeat split; reflexivity).
+  destruct (s_self ns); [|inversion H; subst; repeat split; reflexivity].
+  destruct (s_eps_acc ns); [inversion H; subst; repeat split; reflexivity|].
+  destruct (N.leb (max_events lim) (k_next (kc_new (s_post ns)))); [inversion H; subst; repeat split; reflexivity|].
+  destruct (kc_extend (kc_new (s_post ns)) e (s_alias ns)); [|discriminate].
+  inversion H; subst; repeat split; reflexivity.
+Qed.
+
 Lemma backpressure_length st mx runs r c runs' added c' :
   1 <= mx -> length runs <= mx ->
   backpressure st mx runs r c = (runs', added, c') -> length runs' <= mx.
@@ -126,7 +139,7 @@ Proof.
     set (parts1 := match part_get key parts0 with Some _ => part_set key rs1 parts0 | None => parts0 end) in *.
     assert (F1 : Forall (fun p => length (snd p) <= g_max_runs g) parts1).
     { unfold parts1. destruct (part_get key parts0); [apply part_set_bound; [assumption | lia] | assumption]. }
-    destruct (try_start (g_nfa g) e (e_clock en)) as [r|].
+    destruct (try_start (g_nfa g) (g_lim g) e (e_clock en)) as [r|].
     + set (cur1 := match part_get key parts1 with Some rs => rs | None => [] end) in *.
       assert (Lc1 : length cur1 <= g_max_runs g).
       { unfold cur1. destruct (part_get key parts1) eqn:E; [eapply part_get_bound; eauto | cbn; lia]. }
@@ -136,7 +149,7 @@ Proof.
     + inversion H; subst. split; cbn; [rewrite check_negs_length; exact L | exact F1].
   - destruct (proc_runs _ _ _ _ (check_negs (g_negs g) e (e_runs en)) 0 []) as [[rs1 ms1]|] eqn:P; [|discriminate].
     apply proc_runs_length in P. rewrite check_negs_length in P.
-    destruct (try_start (g_nfa g) e (e_clock en)) as [r|].
+    destruct (try_start (g_nfa g) (g_lim g) e (e_clock en)) as [r|].
     + destruct (backpressure (g_strategy g) (g_max_runs g) rs1 r (e_cnt en)) as [[rs2 added] c1] eqn:B.
       inversion H; subst. split; cbn; [|exact F0].
       apply (backpressure_length (g_strategy g) (g_max_runs g) rs1 r (e_cnt en) rs2 added c1 M); [lia | exact B].
